@@ -134,6 +134,19 @@ main (int argc, char **argv)
               if (ow_gensalt_rn) { errno = 0; r = ow_gensalt_rn (prefixes[p], counts[c], rb, nrb, out, sizeof out); show ("crypt_gensalt_rn@OW_CRYPT_1.0", prefixes[p], lab, r, errno); }
             }
         }
+  /* every buffer size an old program may have compiled in (crypt_blowfish's own CRYPT_GENSALT_OUTPUT_SIZE was 7+22+1 = 30).
+     The sha-crypt family and md5crypt are left out: at their exact-fit sizes 4.4.33 aborts (fixed defect F2) */
+  for (int p = 0; prefixes[p]; p++)
+    {
+      if (!strncmp (prefixes[p], "$1$", 3) || !strncmp (prefixes[p], "$5$", 3) || !strncmp (prefixes[p], "$6$", 3))
+        continue;
+      for (int sz = 1; sz <= 72; sz++)
+        {
+          char out[80], lab[64], *r;
+          snprintf (lab, sizeof lab, "count=0,nrbytes=16,size=%d", sz);
+          errno = 0; r = crypt_gensalt_rn (prefixes[p], 0, rb, 16, out, sz); show ("crypt_gensalt_rn", prefixes[p], lab, r, errno);
+        }
+    }
   /* every amount of caller-supplied randomness an old program may pass.  Left out: md5crypt/sha256crypt/sha512crypt with 3, 6,
      9 or 12 bytes - there 4.4.33 dropped the last 3-byte group (a salt-less setting for 3 bytes), which is fixed defect F3 of
      this tree, so the two libraries differ on purpose */
